@@ -28,6 +28,7 @@ type SwarmConfig struct {
 	Replica            bool               `json:"replica"`
 	Shadow             bool               `json:"shadow"`
 	CoolDown  int  // last blocks of the run without faults, canary traffic only (C18 liveness evidence)
+	LatePoolAt int64 // hold the last planned pool back until this height (0 = create at once)
 	EdenCycle bool // governance cycles one pool's Eden rewards on/off/on (C13)
 	Reexec             bool               `json:"reexec"`         // re-execute the block log in a fresh OS process
 	ReexecDumpAt       int64              `json:"reexec_dump_at"` // height at which the reference DB is dumped for the resume variant
